@@ -15,6 +15,7 @@ pub mod c18;
 pub mod c19;
 pub mod c20;
 pub mod histprops;
+pub mod httpfollow;
 
 use crate::model::Class;
 
